@@ -36,6 +36,7 @@ def plan(tier, seed):
     for kind in ("model", "twin", "missing", "folder"):
         shards += [{"kind": kind, "seed": seed, "shard": i, "n": 120} for i in range(k)]
     shards += [{"kind": "cli", "seed": seed, "shard": i, "n": 12} for i in range(6 if tier == "quick" else 150)]
+    shards += [{"kind": "cli_vs_lib", "seed": seed, "shard": i, "n": 15} for i in range(16 if tier == "quick" else 200)]
     shards += [{"kind": "table", "seed": seed, "shard": 0}]
     shards += [{"kind": "mcp", "seed": seed, "shard": i, "n": 150} for i in range(2 if tier == "quick" else 30)]
     return shards
@@ -487,6 +488,74 @@ def run_cli(desc):
     return {"evaluations": desc["n"], "nontrivial_hashes": hashes, "counters": cnt, "violations": cap_viols(viols), "samples": samples}
 
 
+def exec_cli_vs_lib(txs):
+    """The same foreign-currency ledger through the real `cgt-tool report --format json` (bundled rates, all-years
+    config) and through the library: acceptance, tax years and holdings must agree; a refusal for a missing rate must be
+    one in both."""
+    from ..clidrv import run_cli_report
+    viols = []
+    o = probe().one(dict(lc.calc_case(txs, fx="bundled"), outputs=["json"]))
+    r = run_cli_report(render_dsl(txs), fmt="json")
+    if r["timeout"] or "panic" in o:
+        return viols, "skipped"
+    case = {"op": "cli-vs-lib", "txs": txs}
+    if ("ok" in o) != (r["exit"] == 0):
+        viols.append({"clause": "cli-acceptance-differs-from-library", "signature": "cli-acceptance-differs-from-library",
+                      "detail": f"library: {'accepted' if 'ok' in o else o.get('err', {}).get('message', '')[:120]} | "
+                                f"cli exit {r['exit']}: {r['stderr'][:160]}", "case": case})
+        return viols, "judged"
+    if "ok" not in o:
+        if o["err"]["kind"] == "MissingFxRate" and "Missing FX rate" not in r["stderr"]:
+            viols.append({"clause": "cli-missing-rate-message", "signature": "cli-missing-rate-message",
+                          "detail": r["stderr"][:200], "case": case})
+        return viols, "both_refused"
+    want, got = json.loads(o["ok"]["json"]), json.loads(r["stdout"])
+    if want["tax_years"] != got["tax_years"] or want["holdings"] != got["holdings"]:
+        viols.append({"clause": "cli-report-differs-from-library", "signature": "cli-report-differs-from-library",
+                      "detail": "tax_years/holdings of `report --format json` differ from the library's JSON", "case": case})
+    return viols, "judged"
+
+
+def run_cli_vs_lib(desc):
+    """Front-end gating of the rate table: foreign amounts on any subset of line kinds (only trades, only dividends /
+    accumulations / capital returns, only fees...), so a CLI that decides from some of the lines whether rates are
+    needed is observed."""
+    rng = rng_for(PROP, desc["seed"], "cli_vs_lib", desc["shard"])
+    codes = table_codes()
+    cnt, viols, hashes, samples = Counter(), [], set(), []
+    for _ in range(desc["n"]):
+        o_ = fx_opts(rng, codes)
+        o_.capital = True
+        o_.dividends = True
+        txs = gen_ledger(rng, o_)[0]
+        keep = rng.choice(["all", "events_only", "trades_only", "fees_only", "one_line"])
+        txs = copy.deepcopy(txs)
+        foreign_lines = [t for t in txs if any(f in t and t[f][1] != "GBP" for f in ("price", "fees", "total", "tax"))]
+        one = rng.choice(foreign_lines) if foreign_lines else None
+        for t in txs:
+            for f in ("price", "fees", "total", "tax"):
+                if f not in t or t[f][1] == "GBP":
+                    continue
+                is_trade = t["kind"] in ("BUY", "SELL")
+                drop = ((keep == "events_only" and is_trade) or (keep == "trades_only" and not is_trade)
+                        or (keep == "fees_only" and f not in ("fees", "tax")) or (keep == "one_line" and t is not one))
+                if drop:
+                    t[f] = [t[f][0], "GBP"]
+        if keep == "events_only" and not any(t["kind"] not in ("BUY", "SELL") and any(f in t and t[f][1] != "GBP" for f in ("total", "tax", "fees")) for t in txs):
+            ev_date = max(pdate(t["date"]) for t in txs) + dt.timedelta(days=3)
+            if ev_date <= dt.date(2026, 3, 25):
+                txs.append({"date": iso(ev_date), "ticker": txs[0]["ticker"], "kind": "DIVIDEND",
+                            "total": ["12.34", rng.choice(codes)], "tax": ["1.2", "GBP"]})
+        vs, how = exec_cli_vs_lib(txs)
+        cnt["cli_vs_lib_" + how] += 1
+        cnt["cli_vs_lib_foreign_on_" + keep] += 1
+        hashes.add(sha(txs)[:16])
+        viols += vs
+        if not vs and how == "judged" and len(samples) < 1 and len(txs) <= 8:
+            samples.append({"foreign_amounts_on": keep, "ledger": lc.brief(txs), "result": "cli == library"})
+    return {"evaluations": 2 * desc["n"], "nontrivial_hashes": hashes, "counters": cnt, "violations": cap_viols(viols), "samples": samples}
+
+
 def run_table(desc):
     """Whole bundled table: every (currency, month) the tool holds equals the independent parse."""
     cnt = Counter()
@@ -564,7 +633,7 @@ def run_shard(desc):
     if desc["kind"] == "mcp":
         return run_mcp(desc)
     return {"model": run_model, "twin": run_twin, "missing": run_missing, "folder": run_folder, "cli": run_cli,
-            "table": run_table}[desc["kind"]](desc)
+            "cli_vs_lib": run_cli_vs_lib, "table": run_table}[desc["kind"]](desc)
 
 
 def replay(case):
@@ -572,6 +641,9 @@ def replay(case):
         o = probe().one(lc.calc_case(case["txs"], fx="bundled"))
         conv = fxm.converter(fxm.Table(known_codes()))
         return judge_model(case["txs"], o, conv, Counter(), {}, set()), o
+    if case.get("op") == "cli-vs-lib":
+        vs, how = exec_cli_vs_lib(case["txs"])
+        return vs, {"how": how}
     if case.get("op") == "twin":
         og, of, on = probe().run([lc.calc_case(case["gbp_twin"], fx="bundled"), lc.calc_case(case["txs"], fx="bundled"),
                                   lc.calc_case(case["gbp_twin"])])
@@ -587,7 +659,7 @@ def finalize(total, tier, seed):
         "every (currency, month) key of the bundled table compared with an independent parse of the XML files"]
 
 
-THRESHOLDS = {"converted_BUY_price": 100, "converted_BUY_fees": 100, "converted_SELL_price": 100, "converted_SELL_fees": 100,
+THRESHOLDS = {"cli_vs_lib_judged": 100, "cli_vs_lib_foreign_on_events_only": 20, "converted_BUY_price": 100, "converted_BUY_fees": 100, "converted_SELL_price": 100, "converted_SELL_fees": 100,
               "converted_DIVIDEND_total": 100, "converted_DIVIDEND_tax": 50, "converted_CAPRETURN_total": 30,
               "converted_ACCUMULATION_total": 30, "twins": 500, "ledgers_straddling_a_month_end": 100,
               "lookups_of_overridden_keys": 200, "bad_folders_rejected": 50, "cli_conversions_at_override_rate": 10,
